@@ -175,6 +175,26 @@ fn gmm_kmeans_init() -> Result<Fp, String> {
     bu(&mut fp, m.predict(&x).as_slice().unwrap());
     Ok(fp)
 }
+/// more than 4096 rows: size thresholds that switch to parallel / different code paths
+fn gmm_big_5000() -> Result<Fp, String> {
+    use linfa_clustering::GaussianMixtureModel;
+    let (x, _) = blobs(5000, 2, 3, 51);
+    let ds = Dataset::from(x.clone());
+    let m = GaussianMixtureModel::params_with_rng(3, rng(6)).n_runs(1).max_n_iterations(15).tolerance(1e-3).fit(&ds).map_err(e)?;
+    let mut fp = Fp::new();
+    b1(&mut fp, m.weights());
+    b2(&mut fp, m.means());
+    fp.extend(m.covariances().iter().map(|v| v.to_bits()));
+    bu(&mut fp, m.predict(&x).as_slice().unwrap());
+    Ok(fp)
+}
+fn kmeans_pp_5000() -> Result<Fp, String> {
+    use linfa_clustering::{KMeans, KMeansInit};
+    let (x, _) = blobs(5000, 3, 5, 52);
+    let ds = Dataset::from(x.clone());
+    let m = KMeans::params_with_rng(5, rng(9)).init_method(KMeansInit::KMeansPlusPlus).n_runs(2).max_n_iterations(10).fit(&ds).map_err(e)?;
+    Ok(kmeans_common(&m, &x))
+}
 fn gmm_random_init_default_seed() -> Result<Fp, String> {
     use linfa_clustering::{GaussianMixtureModel, GmmInitMethod};
     let (x, _) = blobs(300, 2, 2, 16);
@@ -441,6 +461,32 @@ fn tree_ties_strings_weighted() -> Result<Fp, String> {
     let m = DecisionTree::params().fit(&ds).map_err(e)?;
     Ok(tree_fp(&m, &x))
 }
+/// >= 3 classes and sample weights that are not sums of a few powers of two: every float sum over
+/// the class weights is order sensitive
+fn tree_weighted_nondyadic() -> Result<Fp, String> {
+    use linfa_trees::{DecisionTree, SplitQuality};
+    // five heavily overlapping classes, so that the tree has many impure multi-class nodes
+    let n = 150;
+    let mut g = Lcg(20);
+    let mut x = Array2::zeros((n, 3));
+    let mut y = Array1::zeros(n);
+    for i in 0..n {
+        let c = i % 5;
+        y[i] = c;
+        x[(i, 0)] = c as f64 + 2.5 * g.next();
+        x[(i, 1)] = (c % 3) as f64 + 2.0 * g.next();
+        x[(i, 2)] = g.next();
+    }
+    let w = Array1::from_shape_fn(n, |i| 0.1f32 * (1 + (i * 7) % 13) as f32);
+    let ds = Dataset::new(x.clone(), y).with_weights(w);
+    let mut fp = Fp::new();
+    for q in [SplitQuality::Gini, SplitQuality::Entropy] {
+        let m = DecisionTree::params().split_quality(q).fit(&ds).map_err(e)?;
+        fp.extend(tree_fp(&m, &x));
+        fp.extend(m.mean_impurity_decrease().iter().map(|v| v.to_bits()));
+    }
+    Ok(fp)
+}
 fn gaussian_nb_ties() -> Result<Fp, String> {
     use linfa_bayes::GaussianNb;
     // symmetric classes: queries on the symmetry axis have exactly equal posteriors
@@ -674,12 +720,12 @@ pub fn registry() -> Vec<Entry> {
     }
     ent![
         kmeans_random_big, kmeans_pp_big, kmeans_default_seed, kmeans_precomputed_ties, kmeans_incremental,
-        gmm_kmeans_init, gmm_random_init_default_seed, dbscan_all_indices, optics_default,
+        gmm_kmeans_init, gmm_big_5000, kmeans_pp_5000, gmm_random_init_default_seed, dbscan_all_indices, optics_default,
         hierarchical_ward3, hierarchical_single2,
         ols, isotonic, tweedie, elasticnet, multitask_elasticnet, pls_family,
         logistic_binary, logistic_multi_strings,
         svm_c_bool, svm_nu_bool_shrinking, svm_pr, svm_regression, svm_one_class,
-        tree_blobs, tree_ties, tree_ties_strings_weighted,
+        tree_blobs, tree_ties, tree_ties_strings_weighted, tree_weighted_nondyadic,
         gaussian_nb_ties, gaussian_nb_blobs, multinomial_nb_ties, ftrl_default_seed,
         pca, random_projections, diffusion_map, fast_ica_seeded,
         scalers, whiteners, vectorizers, platt, one_vs_all_and_confusion, multiclass_svm_one_vs_all,
